@@ -1,1 +1,438 @@
-//! C02 - not built yet
+//! C02 - MSL export preserves the meaning of every accepted program.
+//!
+//! Reference-model monitor: the syntax tree the Metal generator hands to the formatter (hook) is executed by
+//! the C-like reference interpreter in its MSL dialect (references, metal:: builtins, as_type) and compared
+//! with the source IR executed by irexec; plus structural monitors on the same tree (globals threaded to exactly
+//! the functions that need them, by reference).
+
+use crate::gen::prog;
+use crate::json::Json;
+use crate::oracle::cexec::{CExec, CTy, Dialect};
+use crate::oracle::diffexec::{self, Truth};
+use crate::oracle::irexec::Exec;
+use crate::oracle::sample;
+use crate::report::{Ctx, Report};
+use crate::rng::{hash_str, Rng};
+use crate::rs::{self, Front, Mode, Opts, Outcome, Tgt};
+use crate::CheckDef;
+use rssl::ir;
+use std::collections::{BTreeMap, BTreeSet, HashMap};
+
+pub fn def() -> CheckDef {
+    CheckDef {
+        id: "C02",
+        salt: 0xC02,
+        rule: "the same typed random programs as C01 without double (gen::prog), plus directed call-graph / aliasing programs over static and \
+               groupshared globals; for every accepted program that the Metal backend does not reject with a diagnostic, every callable \
+               function x 12 argument vectors is executed on the source IR (ground truth, both evaluation orders) and on the Metal syntax \
+               tree from the exporter hook with the C-like interpreter (MSL dialect): return value, out/inout parameters and the final \
+               contents of the static/groupshared storage passed by reference must be bit identical. Structural monitor: the extra \
+               parameters of every emitted function equal the non-constant globals it transitively uses (independent walk of the IR), all \
+               passed by reference. evaluations = samples compared + functions checked structurally; distinct_nontrivial = distinct \
+               accepted programs with at least one compared sample",
+        assumptions: &[
+            "no Metal compiler exists in the sandbox: the tree handed to the formatter is interpreted (the printed text is additionally checked by C09/C05 scans); well-formedness of address spaces / attributes is not checked",
+            "metal:: builtin semantics follow the Metal Shading Language specification; NaN/zero-sign cases where HLSL and Metal differ are discarded as unspecified",
+            "functions are matched by name between source and emitted tree (renamed functions are skipped and counted)",
+        ],
+        min_distinct: (300, 8000),
+        deadline_s: (90.0, 900.0),
+        run,
+        replay,
+    }
+}
+
+/// For every implemented function: names of the static / groupshared, non-const globals it uses directly or through calls
+pub fn needed_globals(m: &ir::Module) -> HashMap<u32, BTreeSet<String>> {
+    fn walk_expr(e: &ir::Expression, globals: &mut BTreeSet<u32>, calls: &mut BTreeSet<u32>) {
+        use ir::Expression as E;
+        match e {
+            E::Global(id) => {
+                globals.insert(id.0);
+            }
+            E::TernaryConditional(a, b, c) => {
+                walk_expr(a, globals, calls);
+                walk_expr(b, globals, calls);
+                walk_expr(c, globals, calls);
+            }
+            E::Sequence(v) => v.iter().for_each(|x| walk_expr(x, globals, calls)),
+            E::Swizzle(a, _) | E::MatrixSwizzle(a, _) | E::StructMember(a, _, _) | E::ObjectMember(a, _) | E::Cast(_, a) => walk_expr(a, globals, calls),
+            E::ArraySubscript(a, b) => {
+                walk_expr(a, globals, calls);
+                walk_expr(b, globals, calls);
+            }
+            E::Call(id, _, v) => {
+                calls.insert(id.0);
+                v.iter().for_each(|x| walk_expr(x, globals, calls));
+            }
+            E::IntrinsicOp(_, v) => v.iter().for_each(|x| walk_expr(x, globals, calls)),
+            E::Constructor(_, slots) => slots.iter().for_each(|s| walk_expr(&s.expr, globals, calls)),
+            _ => {}
+        }
+    }
+    fn walk_init(i: &ir::Initializer, g: &mut BTreeSet<u32>, c: &mut BTreeSet<u32>) {
+        match i {
+            ir::Initializer::Expression(e) => walk_expr(e, g, c),
+            ir::Initializer::Aggregate(v) => v.iter().for_each(|x| walk_init(x, g, c)),
+        }
+    }
+    fn walk_block(b: &ir::ScopeBlock, g: &mut BTreeSet<u32>, c: &mut BTreeSet<u32>) {
+        for s in &b.0 {
+            use ir::StatementKind as K;
+            match &s.kind {
+                K::Expression(e) => walk_expr(e, g, c),
+                K::Var(d) => {
+                    if let Some(i) = &d.init {
+                        walk_init(i, g, c)
+                    }
+                }
+                K::Block(b) => walk_block(b, g, c),
+                K::If(x, b) | K::While(x, b) | K::Switch(x, b) => {
+                    walk_expr(x, g, c);
+                    walk_block(b, g, c);
+                }
+                K::IfElse(x, a, b) => {
+                    walk_expr(x, g, c);
+                    walk_block(a, g, c);
+                    walk_block(b, g, c);
+                }
+                K::For(init, x, inc, body) => {
+                    match init {
+                        ir::ForInit::Expression(e) => walk_expr(e, g, c),
+                        ir::ForInit::Definitions(defs) => {
+                            for d in defs {
+                                if let Some(i) = &d.init {
+                                    walk_init(i, g, c);
+                                }
+                            }
+                        }
+                        ir::ForInit::Empty => {}
+                    }
+                    if let Some(x) = x {
+                        walk_expr(x, g, c);
+                    }
+                    if let Some(i) = inc {
+                        walk_expr(i, g, c);
+                    }
+                    walk_block(body, g, c);
+                }
+                K::DoWhile(b, x) => {
+                    walk_block(b, g, c);
+                    walk_expr(x, g, c);
+                }
+                K::Return(Some(e)) => walk_expr(e, g, c),
+                _ => {}
+            }
+        }
+    }
+    let mut direct: HashMap<u32, (BTreeSet<u32>, BTreeSet<u32>)> = HashMap::new();
+    for id in m.function_registry.iter() {
+        if let Some(imp) = m.function_registry.get_function_implementation(id).as_ref() {
+            let mut g = BTreeSet::new();
+            let mut c = BTreeSet::new();
+            walk_block(&imp.scope_block, &mut g, &mut c);
+            for p in &imp.params {
+                if let Some(d) = &p.default_expr {
+                    walk_expr(d, &mut g, &mut c);
+                }
+            }
+            direct.insert(id.0, (g, c));
+        }
+    }
+    // transitive closure
+    let mut closed: HashMap<u32, BTreeSet<u32>> = direct.iter().map(|(k, v)| (*k, v.0.clone())).collect();
+    loop {
+        let mut changed = false;
+        for (f, (_, calls)) in &direct {
+            let mut add = BTreeSet::new();
+            for c in calls {
+                if let Some(g) = closed.get(c) {
+                    add.extend(g.iter().cloned());
+                }
+            }
+            let mine = closed.get_mut(f).unwrap();
+            let before = mine.len();
+            mine.extend(add);
+            if mine.len() != before {
+                changed = true;
+            }
+        }
+        if !changed {
+            break;
+        }
+    }
+    let mut out = HashMap::new();
+    for (f, gs) in closed {
+        let mut names = BTreeSet::new();
+        for g in gs {
+            let def = &m.global_registry[g as usize];
+            let is_const = m.type_registry.is_const(def.type_id);
+            let threaded = match def.storage_class {
+                ir::GlobalStorage::Static => !is_const,
+                ir::GlobalStorage::GroupShared => true,
+                ir::GlobalStorage::Extern => false,
+            };
+            if threaded && !def.is_intrinsic {
+                names.insert(def.name.node.clone());
+            }
+        }
+        out.insert(f, names);
+    }
+    out
+}
+
+pub fn examine_program(text: &str, origin: &str, seed: u64, report: &mut Report) -> bool {
+    let src_ir = match rs::front_text(text, true) {
+        Front::Ok((_, Some(ir))) => ir,
+        Front::Ok(_) => return false,
+        Front::Diag(_) => {
+            report.count("program:rejected");
+            return false;
+        }
+        Front::Panic(c) => {
+            report.count(&format!("skipped:panic:{}", c.signature()));
+            return false;
+        }
+    };
+    report.count("program:accepted");
+    let out = rs::compile_text(text, &Opts::new(Tgt::Msl, Mode::NoPipeline));
+    let (tree, emitted) = match &out {
+        Outcome::Ok(p) => match &p[0].tree {
+            Some(t) => (t.clone(), p[0].source.clone()),
+            None => {
+                report.inconclusive("the exporter hook recorded no syntax tree");
+                return false;
+            }
+        },
+        Outcome::Diag(d) => {
+            // allowed by the property: rejected by the Metal backend with a diagnostic
+            let class: String = d.lines().next().unwrap_or("").split("metal generate:").nth(1).unwrap_or("other").trim().split('(').next().unwrap_or("").chars().take(40).collect();
+            report.count(&format!("metal-backend-diagnostic:{}", class));
+            return false;
+        }
+        Outcome::Panic(c) => {
+            report.count(&format!("skipped:export-panic:{}", c.signature()));
+            return false;
+        }
+        Outcome::Budget { .. } => return false,
+    };
+    let functions = diffexec::callable_functions(&src_ir);
+    if functions.is_empty() {
+        return false;
+    }
+    let globals = match diffexec::initial_globals(&src_ir) {
+        Ok(g) => g,
+        Err(t) => {
+            report.count(&format!("skipped:global-init:{}", diffexec::trap_class(&t)));
+            return false;
+        }
+    };
+    let w = |function: &str, args: &[crate::oracle::val::Value], expected: &str, got: &str| -> Json {
+        Json::obj()
+            .set("origin", origin)
+            .set("arg_seed", Json::Str(seed.to_string()))
+            .set("program", text)
+            .set("function", function)
+            .set("arguments", Json::Arr(args.iter().map(|a| Json::str(format!("{}", a))).collect()))
+            .set("source_semantics", expected)
+            .set("emitted_semantics", got)
+            .set("emitted", emitted.as_str())
+    };
+
+    // ---- structural monitor -------------------------------------------------------------------
+    let needed = needed_globals(&src_ir);
+    if let Ok(cexec) = CExec::new(&tree, Dialect::Msl) {
+        let emitted_functions = cexec.free_functions();
+        for (name, id) in &functions {
+            let imp = src_ir.function_registry.get_function_implementation(*id).as_ref().unwrap();
+            let n = imp.params.len();
+            let candidates: Vec<usize> = emitted_functions.iter().filter(|(q, _)| q == name).map(|(_, i)| *i).collect();
+            if candidates.is_empty() {
+                report.count("skipped:function-not-found-by-name");
+                continue;
+            }
+            report.evaluations += 1;
+            report.count("structure:functions-checked");
+            let want = needed.get(&id.0).cloned().unwrap_or_default();
+            for f in candidates {
+                let info = cexec.param_info(f);
+                let tagged = info.iter().any(|p| matches!(p.2, CTy::Tag));
+                let user_params = if tagged { n + 1 } else { n };
+                if info.len() < user_params {
+                    report.violation("structure:lost-parameter", &format!("emitted {} has fewer parameters than the source function", name), w(name, &[], "", ""));
+                    continue;
+                }
+                let mut have = BTreeSet::new();
+                for (pname, is_ref, _) in &info[user_params..] {
+                    if let Some(pn) = pname {
+                        have.insert(pn.clone());
+                        if !is_ref {
+                            report.violation(
+                                "structure:global-passed-by-value",
+                                &format!("global {} is passed to {} by value", pn, name),
+                                w(name, &[], &format!("needs {:?}", want), &format!("has {:?}", have)),
+                            );
+                        }
+                    }
+                }
+                if have != want {
+                    let missing: Vec<&String> = want.difference(&have).collect();
+                    let extra: Vec<&String> = have.difference(&want).collect();
+                    let sig = if !missing.is_empty() { "structure:global-not-threaded" } else { "structure:unneeded-global-threaded" };
+                    report.violation(
+                        sig,
+                        &format!("function {} transitively uses globals {:?} but the emitted function receives {:?} (missing {:?}, extra {:?})", name, want, have, missing, extra),
+                        w(name, &[], &format!("needs {:?}", want), &format!("has {:?}", have)),
+                    );
+                }
+                report.count_n("structure:threaded-globals", have.len() as u64);
+                report.max("max:threaded-globals-per-function", have.len() as u64);
+            }
+        }
+    }
+
+    // ---- execution monitor --------------------------------------------------------------------
+    let mut compared_any = false;
+    let proto = match Exec::new(&src_ir) {
+        Ok(e) => e,
+        Err(_) => return false,
+    };
+    for (fi, (name, id)) in functions.iter().enumerate() {
+        let imp = src_ir.function_registry.get_function_implementation(*id).as_ref().unwrap();
+        for k in 0..12u64 {
+            let mut rng = Rng::for_case(seed, hash_str(name) ^ (fi as u64) << 8, k);
+            let calm = k % 3 != 0;
+            let mut args = Vec::new();
+            let mut ok = true;
+            for p in &imp.params {
+                match sample::value_for(&proto, p.param_type.type_id, &mut rng, calm) {
+                    Some(v) => args.push(v),
+                    None => {
+                        ok = false;
+                        break;
+                    }
+                }
+            }
+            if !ok {
+                report.count("skipped:parameter-type-not-modelled");
+                break;
+            }
+            let truth = match diffexec::ground_truth(&src_ir, *id, &args) {
+                Truth::Defined(o) => o,
+                Truth::Skipped(why) => {
+                    report.count(&format!("sample-skipped:{}", why.split(':').take(2).collect::<Vec<_>>().join(":")));
+                    continue;
+                }
+            };
+            match diffexec::run_tree(&tree, Dialect::Msl, name, &args, &globals) {
+                Ok(got) => {
+                    report.evaluations += 1;
+                    compared_any = true;
+                    report.count("compared:msl");
+                    if let Some(d) = truth.diff(&got) {
+                        report.violation("meaning-changed", &format!("function {} computes a different result in the emitted Metal: {}", name, d), w(name, &args, &truth.describe(), &got.describe()));
+                    }
+                }
+                Err(t) => {
+                    let class = diffexec::trap_class(&t);
+                    if class.starts_with("unsupported:") || class.starts_with("trap:unspecified") {
+                        report.count(&format!("oracle-skipped:{}", class));
+                        if std::env::var("VERIF_DEBUG").is_ok() {
+                            eprintln!("=== msl oracle gave up on {} ({}): {:?}", name, origin, t);
+                        }
+                        continue;
+                    }
+                    report.evaluations += 1;
+                    let detail = format!("{:?}", t);
+                    if class == "ill-typed" {
+                        report.violation(
+                            "emitted-msl-ill-formed",
+                            &format!("the emitted Metal for function {} is not well formed for the interpreter: {}", name, detail),
+                            w(name, &args, &truth.describe(), &detail),
+                        );
+                    } else {
+                        report.violation(
+                            &format!("emitted-undefined:{}", class),
+                            &format!("function {} is defined on the source but the emitted Metal traps ({})", name, class),
+                            w(name, &args, &truth.describe(), &detail),
+                        );
+                    }
+                }
+            }
+        }
+    }
+    compared_any
+}
+
+/// Directed programs: call graph shapes over static globals, aliasing probes for out/inout
+pub fn directed_programs() -> Vec<String> {
+    vec![
+        // transitive use through a chain; a function that does not need the global sits in between
+        "static int g0 = 1;\nstatic float g1 = 2.0f;\ngroupshared float lds[4];\nint leaf(int x) { g0 += x; return g0; }\nint mid(int x) { return leaf(x) + 1; }\nint pure(int x) { return x * 2; }\nint top(int x) { lds[0] = (float)x; g1 = lds[0] + g1; return mid(pure(x)) + (int)g1; }\nint only_pure(int x) { return pure(x) + pure(x + 1); }\n".to_string(),
+        // inout aliasing with a global the callee also reads
+        "static int g0 = 5;\nvoid bump(inout int v) { v += 1; g0 += 10; v += g0; }\nint test_alias(int x) { g0 = x; bump(g0); return g0; }\nint test_local(int x) { int l = x; bump(l); return l + g0; }\n".to_string(),
+        // in + inout of the same variable
+        "void acc(int a, inout int b) { b += a; b += a; }\nint same(int x) { int v = x; acc(v, v); return v; }\n".to_string(),
+        // out parameter written twice / read after write
+        "void two(out int a, out int b) { a = 1; b = a + 1; a = b + 1; }\nint outs(int x) { int p; int q; two(p, q); return p * 10 + q + x; }\nint outs_same(int x) { int p; two(p, p); return p + x; }\n".to_string(),
+        // vector swizzle passed to inout
+        "void sw(inout float2 v) { v.x += 1.0f; v = v.yx; }\nfloat4 swz(float4 a) { sw(a.zw); sw(a.xy); return a; }\n".to_string(),
+        // struct member and array element as out arguments, method that mutates
+        "struct S { int a; int b[2]; int bump(int d) { a += d; return a; } };\nvoid set(out int v, int x) { v = x; }\nint members(int x) { S s = { 1, { 2, 3 } }; set(s.a, x); set(s.b[1], x + 1); return s.bump(2) + s.a + s.b[0] + s.b[1]; }\n".to_string(),
+        // globals of several kinds used by several functions in different orders
+        "static int ga = 1;\nstatic int gb = 2;\nstatic int gc = 3;\nstatic int gd = 4;\nstatic int ge = 5;\nint f1() { ga += gb; return ga; }\nint f2() { gc += gd; return gc; }\nint f3() { ge += f1() + f2(); return ge; }\nint f4(int x) { return f3() + f1() + x; }\nint f5(int x) { gd = x; return f2(); }\n".to_string(),
+        // static const stays a constant and needs no threading
+        "static const int kc = 7;\nstatic int gm = 0;\nint usesc(int x) { return x + kc; }\nint usesm(int x) { gm = x; return usesc(gm); }\n".to_string(),
+        // recursion-free diamond
+        "static float gs = 0.5f;\nfloat l(float x) { gs = gs * x; return gs; }\nfloat r(float x) { return x + gs; }\nfloat top2(float x) { return l(x) + r(x) + l(r(x)); }\n".to_string(),
+        // default argument and overloads calling into global users
+        "static uint gu = 3u;\nuint addg(uint x, uint y = 2u) { gu += x * y; return gu; }\nuint ov(uint x) { return addg(x); }\nuint ov(uint x, uint y) { return addg(x, y) + addg(y); }\nuint callov(uint x) { return ov(x) + ov(x, 3u); }\n".to_string(),
+    ]
+}
+
+fn generated(seed: u64, index: u64) -> (String, Vec<&'static str>) {
+    let mut rng = Rng::for_case(seed, 0x9e02, index);
+    let mut cfg = prog::Config::default();
+    cfg.allow_double = false;
+    if index % 4 == 0 {
+        cfg.rich = false;
+    }
+    let p = prog::generate(&mut rng, cfg);
+    (p.render(), p.features)
+}
+
+fn run(ctx: &Ctx) -> Report {
+    let directed = directed_programs();
+    let n_generated = ctx.tier.pick(3_000, 120_000);
+    let n = directed.len() as u64 + n_generated;
+    let seed = ctx.seed;
+    crate::par::run_cases(ctx, n, |index, report| {
+        let (text, origin, features) = if (index as usize) < directed.len() {
+            (directed[index as usize].clone(), format!("directed:{}", index), vec!["directed-call-graph"])
+        } else {
+            let gi = index - directed.len() as u64;
+            let (t, f) = generated(seed, gi);
+            (t, format!("generated:{}", gi), f)
+        };
+        if examine_program(&text, &origin, seed ^ index, report) {
+            report.distinct(hash_str(&text));
+            for f in features {
+                report.count(&format!("feature:{}", f));
+            }
+            if report.want_sample() && index % 11 == 3 {
+                report.sample(Json::obj().set("origin", origin).set("program", text));
+            }
+        }
+    })
+}
+
+fn replay(ctx: &Ctx, witness: &Json) -> Report {
+    let mut report = Report::new();
+    let text = witness.get_str("program").unwrap_or("");
+    let seed = witness.get_str("arg_seed").and_then(|s| s.parse::<u64>().ok()).unwrap_or(ctx.seed);
+    examine_program(text, "replay", seed, &mut report);
+    report
+}
+
+#[allow(dead_code)]
+fn unused(_: BTreeMap<String, u32>) {}
